@@ -3,6 +3,7 @@ package hcons
 import (
 	"bytes"
 	"fmt"
+	"math/big"
 	"testing"
 
 	"github.com/icon-project/goloop/common"
@@ -49,16 +50,49 @@ type c06Msg struct {
 	unsig    byte   // precommits for a block: selects the content of the parts the signature does NOT cover
 	ts       int64  // votes
 	pol      int32  // proposals
+	// sigForm re-encodes the signature after signing without touching what it signs or who signed: 0 as produced,
+	// 1 the malleable twin (r, n-s, v^1), 2 the recovery byte with the "compressed key" flag (v|4). Both recover the
+	// same key over the same hash, and anybody who has seen the message can make them.
+	sigForm byte
+}
+
+var c06N, _ = new(big.Int).SetString("fffffffffffffffffffffffffffffffebaaedce6af48a03bbfd25e8cd0364141", 16)
+
+// c06Reencode rewrites a signature in another accepted form (see c06Msg.sigForm).
+func c06Reencode(sig *common.Signature, form byte) error {
+	if form == 0 {
+		return nil
+	}
+	rsv, err := sig.Signature.SerializeRSV()
+	if err != nil {
+		return err
+	}
+	out := append([]byte{}, rsv...)
+	switch form {
+	case 1:
+		sv := new(big.Int).SetBytes(rsv[32:64])
+		sv.Sub(c06N, sv)
+		copy(out[32:64], sv.FillBytes(make([]byte, 32)))
+		out[64] ^= 1
+	default:
+		out[64] |= 4
+	}
+	ns, err := crypto.ParseSignature(out)
+	if err != nil {
+		return err
+	}
+	sig.Signature = ns
+	return nil
 }
 
 func (m c06Msg) String() string {
 	if m.proposal {
-		return fmt.Sprintf("proposal{signer=%d h=%d r=%d nid=%d ps=%d/%02x pol=%d}", m.signer, m.height, m.round, m.nid, m.psCount, m.psHash, m.pol)
+		return fmt.Sprintf("proposal{signer=%d h=%d r=%d nid=%d ps=%d/%02x pol=%d sigform=%d}", m.signer, m.height, m.round, m.nid, m.psCount, m.psHash, m.pol, m.sigForm)
 	}
 	if m.nilVote {
-		return fmt.Sprintf("vote{signer=%d h=%d r=%d type=%d nid=%d nil ts=%d}", m.signer, m.height, m.round, m.vtype, m.nid, m.ts)
+		return fmt.Sprintf("vote{signer=%d h=%d r=%d type=%d nid=%d nil ts=%d sigform=%d}", m.signer, m.height, m.round, m.vtype, m.nid, m.ts, m.sigForm)
 	}
-	return fmt.Sprintf("vote{signer=%d h=%d r=%d type=%d nid=%d block=%02x ps=%d/%02x nts=%d ts=%d unsigned=%d}", m.signer, m.height, m.round, m.vtype, m.nid, m.block, m.psCount, m.psHash, m.ntsCount, m.ts, m.unsig)
+	return fmt.Sprintf("vote{signer=%d h=%d r=%d type=%d nid=%d block=%02x ps=%d/%02x nts=%d ts=%d unsigned=%d sigform=%d}", m.signer, m.height, m.round, m.vtype, m.nid, m.block, m.psCount, m.psHash, m.ntsCount, m.ts, m.unsig, m.sigForm)
 }
 
 // signed is the canonical rendering of exactly the fields covered by the signature.
@@ -105,6 +139,9 @@ func c06Build(m c06Msg) (typ string, bs []byte, err error) {
 		if err := pm.Sign(w); err != nil {
 			return "", nil, err
 		}
+		if err := c06Reencode(&pm.Signature, m.sigForm); err != nil {
+			return "", nil, err
+		}
 		bs, err := codec.BC.MarshalToBytes(pm)
 		return module.DSTProposal, bs, err
 	}
@@ -129,6 +166,9 @@ func c06Build(m c06Msg) (typ string, bs []byte, err error) {
 		vm.BlockPartSetIDAndNTSVoteCount = psid.WithAppData(uint64(m.nid)<<16 | uint64(m.ntsCount))
 	}
 	if err := vm.Sign(w); err != nil {
+		return "", nil, err
+	}
+	if err := c06Reencode(&vm.Signature, m.sigForm); err != nil {
 		return "", nil, err
 	}
 	bs, err = codec.BC.MarshalToBytes(vm)
@@ -159,15 +199,15 @@ func c06DrawMsg(rt *rapid.T, nids []uint32) c06Msg {
 func c06Applicable(m c06Msg) []string {
 	switch {
 	case m.proposal:
-		return []string{"kind", "signer", "height", "round", "nid", "ps", "pol"}
+		return []string{"kind", "signer", "height", "round", "nid", "ps", "pol", "sigform", "sigform"}
 	case m.nilVote:
-		return []string{"kind", "signer", "height", "round", "vtype", "nid", "nil", "ts"}
+		return []string{"kind", "signer", "height", "round", "vtype", "nid", "nil", "ts", "sigform"}
 	}
 	if m.vtype == consensus.VoteTypePrecommit && m.ntsCount > 0 {
 		// "unsig" is listed twice: it is the only attribute whose change leaves the signed content alone
-		return []string{"kind", "signer", "height", "round", "vtype", "nid", "nil", "block", "ps", "nts", "ts", "unsig", "unsig"}
+		return []string{"kind", "signer", "height", "round", "vtype", "nid", "nil", "block", "ps", "nts", "ts", "unsig", "unsig", "sigform"}
 	}
-	return []string{"kind", "signer", "height", "round", "vtype", "nid", "nil", "block", "ps", "nts", "ts"}
+	return []string{"kind", "signer", "height", "round", "vtype", "nid", "nil", "block", "ps", "nts", "ts", "sigform"}
 }
 
 // c06Mutate changes attribute a of m to a different value.
@@ -216,6 +256,8 @@ func c06Mutate(rt *rapid.T, m c06Msg, a string, nids []uint32) c06Msg {
 		m.ts = int64(other(int(m.ts), 1000, 1003, "ts2"))
 	case "pol":
 		m.pol = int32(other(int(m.pol), -1, 1, "pol2"))
+	case "sigform":
+		m.sigForm = byte(other(int(m.sigForm), 0, 2, "sigform2"))
 	}
 	return m
 }
@@ -311,6 +353,9 @@ func TestC06(t *testing.T) {
 				} else {
 					labels = append(labels, "one-signed-vote-copies-differ-in-unsigned-parts")
 				}
+			}
+			if m1.proposal == m2.proposal && m1.signer == m2.signer && m1.signed() == m2.signed() && m1.sigForm != m2.sigForm {
+				labels = append(labels, "one-signed-message-in-two-signature-encodings")
 			}
 			rec.Case(desc, len(failed) == 1, labels...)
 			d1, err := consensus.DecodeDoubleSignData(t1, bs1)
